@@ -318,7 +318,8 @@ def _block(stmts, fn_counts):
         if isinstance(s, ast.Assign) and len(s.targets) == 1 and isinstance(s.targets[0], ast.Name) and isinstance(s.value, ast.Call) \
                 and isinstance(s.value.func, ast.Name) and s.value.func.id == 'next' and len(s.value.args) == 2 and not s.value.keywords \
                 and isinstance(s.value.args[0], ast.GeneratorExp) and len(s.value.args[0].generators) == 1 and not s.value.args[0].generators[0].is_async \
-                and isinstance(s.value.args[1], (ast.Constant, ast.Name)) \
+                and (isinstance(s.value.args[1], (ast.Constant, ast.Name)) or (isinstance(s.value.args[1], ast.Call) and isinstance(s.value.args[1].func, ast.Name)
+                     and s.value.args[1].func.id == 'len' and len(s.value.args[1].args) == 1 and isinstance(s.value.args[1].args[0], (ast.Name, ast.Attribute)))) \
                 and not any(isinstance(x, (ast.ListComp, ast.SetComp, ast.DictComp, ast.GeneratorExp, ast.Lambda, ast.Await, ast.NamedExpr, ast.Yield, ast.YieldFrom))
                             for x in ast.walk(s.value.args[0]) if x is not s.value.args[0]) \
                 and not any(isinstance(x, ast.Name) and x.id == s.targets[0].id for x in ast.walk(s.value)):
@@ -745,6 +746,24 @@ class _Desugar(ast.NodeTransformer):
             return [a, b]
         return node
 
+    def visit_Raise(self, node):
+        # 20. `raise (A if T else B)(..)` / `raise A(..) if T else B(..)` is `if T: raise A(..)` else `raise B(..)`
+        self.generic_visit(node)
+        e = node.exc
+        import copy as _copy
+        alt = None
+        if isinstance(e, ast.IfExp):
+            alt = (e.test, e.body, e.orelse)
+        elif isinstance(e, ast.Call) and isinstance(e.func, ast.IfExp):
+            mk = lambda f_: ast.copy_location(ast.Call(func=f_, args=_copy.deepcopy(e.args), keywords=_copy.deepcopy(e.keywords)), e)    # noqa: E731
+            alt = (e.func.test, mk(e.func.body), mk(e.func.orelse))
+        if alt is None or node.cause is not None:
+            return node
+        a = ast.copy_location(ast.If(test=alt[0], body=[ast.copy_location(ast.Raise(exc=alt[1], cause=None), node)],
+                                     orelse=[ast.copy_location(ast.Raise(exc=alt[2], cause=None), node)]), node)
+        ast.fix_missing_locations(a)
+        return a
+
     def visit_If(self, node):
         self.generic_visit(node)
         w = self._first_walrus(node.test)
@@ -769,4 +788,12 @@ def canonicalise(tree):
     for fn in [n for n in ast.walk(tree) if isinstance(n, (ast.FunctionDef, ast.AsyncFunctionDef))]:
         fn.body = _block(fn.body, _counts(fn))
     ast.fix_missing_locations(tree)
+    # inlining a temporary can put a conditional expression where rules 18 / 20 read one (`f = A if t else B; raise f()`): once more
+    before = ast.dump(tree)
+    _Desugar().visit(tree)
+    ast.fix_missing_locations(tree)
+    if ast.dump(tree) != before:
+        for fn in [n for n in ast.walk(tree) if isinstance(n, (ast.FunctionDef, ast.AsyncFunctionDef))]:
+            fn.body = _block(fn.body, _counts(fn))
+        ast.fix_missing_locations(tree)
     return tree
